@@ -57,7 +57,7 @@ instance : PPOps Float where
   fmax a b := if a.isNaN then b else if b.isNaN then a else if a < b then b else a
   fmin a b := if a.isNaN then b else if b.isNaN then a else if b < a then b else a
   abs := Float.abs
-  powf := Float.pow
+  powf a b := if b == 2.0 then a * a else if b == 0.5 then (if a == fNegInf then fInf else (Float.sqrt a).abs) else Float.pow a b
   ln := Float.log
   log10 := Float.log10
   exp := Float.exp
